@@ -21,6 +21,18 @@ Theorem waits_separate :
       forall k d, In k (q_kern h) -> In d (q_dma h) -> conflict k d = false.
 Proof. exact waits_separate_lemma. Qed.
 
+(* the same with the conflict relation instantiated by the model of MemoryAccessSet.conflicts over
+   access sets that satisfy the class invariant: no kernel operation and DMA operation unfinished
+   together have a byte (region, address) written by one and read or written by the other *)
+Theorem waits_separate_bytes :
+  forall (op : Type) (is_dma : op -> bool) (acc : op -> maset) (max_dma max_kern : Z),
+    (forall o, ma_wf (acc o)) ->
+    forall (ops : list op) (h : qstate op) (rest : list (qcmd op)),
+      qsteps op is_dma max_dma max_kern
+             (q_init, emit op is_dma (acc_conflict op acc) max_dma max_kern w_init ops) (h, rest) ->
+      forall k d, In k (q_kern h) -> In d (q_dma h) -> ~ byte_conflict (acc k) (acc d).
+Proof. exact waits_separate_bytes_lemma. Qed.
+
 (* the invariant behind it, on the model's own state: after any history, every cross pair of
    outstanding_npu_ops x outstanding_dma_ops is conflict-free and the lists respect the limits *)
 Theorem waits_model_invariant :
@@ -129,6 +141,14 @@ Theorem footprint_overapprox_refuted :
     ~ covered_by fm y x c (get_address_ranges fm).
 Proof. exact footprint_overapprox_refuted_lemma. Qed.
 
+(* device T: the coordinate intersection test of the model is the one regenerated from
+   register_command_stream_util.coords_intersect on every run (a change of the source breaks this) *)
+Theorem gen_coords_intersect_agrees :
+  forall sa ea sb eb,
+    VV.gen.GenWaits.coords_intersect (px sa) (py sa) (pz sa) (px ea) (py ea) (pz ea) (px sb) (py sb) (pz sb) (px eb) (py eb) (pz eb)
+    = coords_intersect sa ea sb eb.
+Proof. exact gen_coords_intersect_eq. Qed.
+
 (* D2, the validator run on every decoded stream.  If check_hazards accepts the events then
    (1) replaying the stream in the queue machine (every EOp issued to its queue with the exact
        footprint of Npu.op_footprint, KERNEL_WAIT / DMA_WAIT as waits, the accelerator's outstanding
@@ -165,6 +185,7 @@ Theorem queue_simulation_sound :
 Proof. exact qcheck_sound. Qed.
 
 Print Assumptions waits_separate.
+Print Assumptions waits_separate_bytes.
 Print Assumptions waits_model_invariant.
 Print Assumptions rangeset_intersects_spec.
 Print Assumptions rangeset_or_invariant.
